@@ -161,6 +161,7 @@ type Model struct {
 	// statement treats them as two stakes; used only to classify a mismatch precisely.
 	Collided map[string]*Stake // owner -> stake
 	LostToCollision []*big.Int
+	punitive        bool // the current block carried evidence or missed signatures
 }
 
 func (m *Model) freeze(s *Stake) {
@@ -274,6 +275,12 @@ type Vote struct {
 // BeginBlock applies evidence, rewards and downtime jailing for block h.
 func (m *Model) BeginBlock(h int64, proposer string, evidence []string, votes []Vote) {
 	m.cur = h
+	m.punitive = len(evidence) > 0
+	for _, v := range votes {
+		if !v.Signed {
+			m.punitive = true
+		}
+	}
 	m.reasons = map[string]map[string]bool{}
 	m.fees = new(big.Int)
 	m.proposer = proposer
@@ -836,7 +843,19 @@ func (m *Model) Compare(st *sim.State) {
 			m.find("C05", "document-mismatch", "account", "height %d account %s: name/doc %q/%q, model %q/%q", h, a, ia.Name, ia.Doc, ma.Name, ma.Doc)
 		}
 	}
-	// delegatees
+	// delegatees (owned by C11; in a block with evidence or missed signatures also by C14: the slashing / jailing rule)
+	nBefore := len(m.Findings)
+	defer func() {
+		if !m.punitive {
+			return
+		}
+		for _, f := range append([]Finding{}, m.Findings[nBefore:]...) {
+			if f.Prop == "C11" || (f.Prop == "C12" && strings.HasPrefix(f.Kind, "unbonding-stake")) {
+				f.Prop = "C14"
+				m.Findings = append(m.Findings, f)
+			}
+		}
+	}()
 	ds := map[string]bool{}
 	for a := range m.Deleg {
 		ds[a] = true
